@@ -113,12 +113,12 @@ CHECKS = {
     },
     "C16": {
         "text": "Provision.tla models every actor message of update/reset/timeup/query and the file steps of write_provision_state; TLC checks FinishedOnlyAfter, Answer, ErrorTextExact, QueryTruth, TagAtomic exhaustively; TLC-generated schedules (including every counterexample class found on the original design) are replayed on the real code through the H5 schedule gates and the real HTTP /provision endpoint, and random gated runs plus strace-delayed file races are validated by TLC against the property-level trace spec.",
-        "note": "Schedules are forced with cfg-guarded gates at the entry of the provision actor's client calls; file-step interleavings rely on strace delay injection; no gate between get_state and the channel-state read. status.tag is looked at after every step by a reader that keeps the previously seen file open: same inode with different content, or a change readable through the old descriptor, is an in-place modification (TagInPlace); a status.tag that was seen once and is missing at a later look (also while the publisher is parked at a gate) is a non-atomic replacement (TagVanished). Directed sequential histories (deadline with two subsystems missing, query, one reports, query, ...) compare every error text with what had been reported at that moment without holding any query at a gate; a schedule on which a task neither parks nor returns within 2.5 s is abandoned and counted (stuck_runs), a tool error only if nothing could be replayed. The waiting client of `--status --wait` is a process of Provision.tla (WPoll: every poll names the instant of the first) and is driven for real: provision_query::ProvisionQuery polls the real listener through a capturing forwarder, the key keeper not serving the notification; every request must carry the tick the query was created with (WaitQueryInstant) and the value the client returns is judged by QueryTruth/QueryComplete for that instant. The error text (query answers and status.tag, xml-escaped there) is also exercised with module status messages of 900..1100 bytes, ASCII and multi-byte with the agent status cut inside a character, for every subset of not-ready subsystems; each line must be exactly the prefix plus the message as the agent status hands it out.",
+        "note": "Schedules are forced with cfg-guarded gates at the entry of the provision actor's client calls; file-step interleavings rely on strace delay injection; no gate between get_state and the channel-state read. status.tag is looked at after every step by a reader that keeps the previously seen file open: same inode with different content, or a change readable through the old descriptor, is an in-place modification (TagInPlace); a status.tag that was seen once and is missing at a later look (also while the publisher is parked at a gate) is a non-atomic replacement (TagVanished). Directed sequential histories (deadline with two subsystems missing, query, one reports, query, ...) compare every error text with what had been reported at that moment without holding any query at a gate; a schedule on which a task neither parks nor returns within 2.5 s is abandoned and counted (stuck_runs), a tool error only if nothing could be replayed. The waiting client of `--status --wait` is a process of Provision.tla (WPoll: every poll names the instant of the first) and is driven for real: provision_query::ProvisionQuery polls the real listener through a capturing forwarder, the key keeper not serving the notification; every request must carry the tick the query was created with (WaitQueryInstant) and the value the client returns is judged by QueryTruth/QueryComplete for that instant. The error text (query answers and status.tag, xml-escaped there) is also exercised with module status messages of 900..1100 bytes, ASCII and multi-byte with the agent status cut inside a character, for every subset of not-ready subsystems; each line must be exactly the prefix plus the message as the agent status hands it out. Reachability of the listener is an environment dimension of the waiting client: the first k polls get no answer (connection dropped / refused until the port is bound) or nothing listens for the whole wait (QRefused / WRefused in Provision.tla; TLC rejects the design variant in which an unanswered poll makes the answer finished, mc/Provision_variant_l.cfg); the client may return finished only if the answer to one of its polls said so (WaitQueryUnanswered).",
         "technique": "TLA+ spec + TLC model checking; deterministic schedule replay through gates; impl->spec trace validation",
         "design_ref": "DESIGN.md §3 Provision.tla",
     },
     "C17": {
-        "text": "Setup.tla models each setup command as the step sequence of the tool (stop, copies, unit, systemctl calls, backup deletion) with no bound on command sequences; TLC checks RoundTrip, StopBeforeReplace, InstallExact, RestoreNoBackupIsNoop, UninstallPackageRemoves, PurgeOnlyBackup, Frame on the whole graph; every generated behaviour (all 3-command sequences from all initial states plus a 4th command; thorough: all 4-command and sampled 5-command ones) is executed with the real release-built proxy_agent_setup in a private mount namespace (overlayfs over /etc,/usr,/var..., logging fake systemctl) comparing file hashes after every command, and the observations are validated by TLC against the trace spec. The file-system layout is an environment dimension (Setup.tla constant SameFs, lnk = backup file and live file are one inode): every behaviour is replayed twice, with the tool's folder on another mount than /etc and /usr (link/rename into the system directories fail with EXDEV) and chroot-ed into one overlay of the whole root with the tool's folder under /var/lib/waagent, where link(2) from Backup/Package into all four system directories is proven to succeed before any replay; TLC shows that the design's graph is the same for both values (BackupIsSeparate) and must reject the design variant 'backup by hard link + in-place overwrite' when SameFs (RoundTrip) while accepting it when every link fails.",
+        "text": "Setup.tla models each setup command as the step sequence of the tool (stop, copies, unit, systemctl calls, backup deletion) with no bound on command sequences; TLC checks RoundTrip, StopBeforeReplace, InstallExact, RestoreNoBackupIsNoop, UninstallPackageRemoves, PurgeOnlyBackup, Frame on the whole graph; every generated behaviour (all 3-command sequences from all initial states plus a 4th command; thorough: all 4-command and sampled 5-command ones) is executed with the real release-built proxy_agent_setup in a private mount namespace (overlayfs over /etc,/usr,/var..., logging fake systemctl) comparing file hashes after every command, and the observations are validated by TLC against the trace spec. The file-system layout is an environment dimension (Setup.tla constant SameFs, lnk = backup file and live file are one inode): every behaviour is replayed twice, with the tool's folder on another mount than /etc and /usr (link/rename into the system directories fail with EXDEV) and chroot-ed into one overlay of the whole root with the tool's folder under /var/lib/waagent, where link(2) from Backup/Package into all four system directories is proven to succeed before any replay; TLC shows that the design's graph is the same for both values (BackupIsSeparate) and must reject the design variant 'backup by hard link + in-place overwrite' when SameFs (RoundTrip) while accepting it when every link fails. The wall clock is a second environment dimension (ClockSteps): the statement scenarios and a seeded tenth of the behaviours whose restore finds a backup are replayed once more per layout with the time stamps of every file of the tool's world moved between two commands (+3 min = clock stepped back, -8 days = a week later); expected contents are unchanged, and TLC must reject the variant 'restore refuses a backup that does not look at most 7 days old' when the clock can step while accepting it under a steady clock.",
         "note": "The fake systemctl always succeeds; ordering evidence comes from its call-time snapshots (strace on a seeded subset). Windows paths not covered. Mixed layouts (/etc and /usr on different file systems) are not run; overlayfs with a tmpfs upper layer stands for the VM's root file system.",
         "technique": "TLA+ spec + TLC model checking; exhaustive spec->impl replay on the real binary; impl->spec trace validation",
         "design_ref": "DESIGN.md §3 Setup.tla",
@@ -182,7 +182,14 @@ CHECKS = {
                 "the check are deliberately not monotone. Event flushes may fail after creating their temp file "
                 "(RLIMIT_FSIZE=0 in the driver): the cap bounds ALL entries of the event directory, counted from "
                 "the raw listing. Directories are listed before and after the logger objects are created: a "
-                "restart is an observed step (crash loops of short runs included).",
+                "restart is an observed step (crash loops of short runs included). Two environment dimensions with "
+                "the bounds unchanged: no room on the log file system at a roll (RLIMIT_FSIZE=0 around the write) "
+                "and an unstat()able entry in the dump directory during rule-set changes (dangling symlink); the "
+                "design variants copy + truncate roll and write-before-clean-up are witness configurations TLC "
+                "must reject. A third: an entry of the log directory that cannot be stat()ed while a write rolls "
+                "(what the other rolling logger of the folder does to this one; dangling link for the duration of "
+                "the write); the listing-fails-as-a-whole design (the code before its repair, known finding "
+                "C19-roll-listing-fails) is the witness TLC rejects.",
         "note": "One writer per log, wall clock monotone between rolls/dumps (oldest decided by name). Kill between "
                 "system calls inside a roll is outside C19's quantifier (reported as coverage.crash_window). The "
                 "rename fault is realised as EBUSY on a bind-mounted file; needs `unshare -m` (root).",
@@ -206,7 +213,14 @@ CHECKS = {
                 "rewrites / removes the agent's status file and performs the handler's sequence-number change between polls "
                 "(directed, every 3-poll history over 9 step kinds, seeded random; ~800 histories quick); all <seq>.status "
                 "files are read back after every poll and TLC decides them against HealthLoopTrace.tla (file of the current "
-                "number = the loop's document carrying this poll's observation, its status obeying the hysteresis).",
+                "number = the loop's document carrying this poll's observation, its status obeying the hysteresis). "
+                "Two environment dimensions are part of model and runs: a sequence-number change under a version mismatch "
+                "(HealthLoop!Install: the stand-in setup tool's `install` exits 0 / non-zero / cannot be started; status.code is "
+                "set, one failed observation is counted, and the report must still be the hysteresis value -- TLC rejects the "
+                "design that reports error while the code is non-zero), and the status folder on the same / another file "
+                "system than the process's temporary directory (TLC rejects write-to-temp-then-rename across file systems; a "
+                "status file that is not there after a completed poll is an observation the trace spec rejects, a tool error "
+                "only if the harness's own write probe into the folder fails).",
         "note": "Trusts TLC, the transcription of C20 into Health.tla/HealthRate.tla invariants, determinism of the two "
                 "objects. The rate limiter's wiring constant MAX_STATE_COUNT is private; exercised at 120. The loop runs in "
                 "harness/sys/ns_enter.sh (overlayfs over /usr /var /etc ...) with stand-ins for the setup tool and both agent "
